@@ -771,7 +771,7 @@ func genClusterScript(r *common.Rng, tier string) (cscript, bool) {
 	if r.Chance(1, 8) {
 		// the same peer joins and is removed more often than backups_rotate (snapshots forced)
 		s.rotate = 1 + r.Intn(2)
-		s.slash = r.Chance(1, 12)
+		s.slash = r.Chance(1, 3)
 		for k := 0; k < s.rotate+2; k++ {
 			s.ops = append(s.ops, "join@1@0", fmt.Sprintf("pin@0@%s", fmt.Sprintf(clusterPinShapes[0], r.Intn(5))), "snap@1")
 			switch r.Intn(3) {
